@@ -147,6 +147,8 @@ func (w *world) idHeader(actor, mode string) map[string]string {
 		return map[string]string{"Lambda-Extension-Identifier": "not-a-uuid"}
 	case "unknownid":
 		return map[string]string{"Lambda-Extension-Identifier": "11111111-2222-3333-4444-555555555555"}
+	case "oldid": // the identifier issued to this name in an earlier sandbox generation
+		return map[string]string{"Lambda-Extension-Identifier": w.s.PrevAgentID(actor)}
 	}
 	return map[string]string{"Lambda-Extension-Identifier": w.s.AgentID(actor)}
 }
@@ -256,9 +258,9 @@ func (w *world) apply(ws []string) bool {
 					}
 					return "200,meta=" + meta
 				}})
-		case "next", "nextnoid", "nextbadid", "nextunknownid":
+		case "next", "nextnoid", "nextbadid", "nextunknownid", "nextoldid":
 			mode := strings.TrimPrefix(call, "next")
-			if mode == "" && s.AgentID(name) == "" {
+			if mode == "" && s.AgentID(name) == "" || mode == "oldid" && s.PrevAgentID(name) == "" {
 				return false
 			}
 			s.Do(stack.CallSpec{Actor: name, What: "next", Method: "GET", Path: extAPI + "/extension/event/next", Headers: w.idHeader(name, mode), Proc: p,
@@ -289,6 +291,9 @@ func (w *world) apply(ws []string) bool {
 		case "initerror", "exiterror": // <type> [noid|badid|unknownid|notype]
 			hdr := w.idHeader(name, "")
 			if len(ws) > 4 {
+				if ws[4] == "oldid" && s.PrevAgentID(name) == "" {
+					return false
+				}
 				hdr = w.idHeader(name, ws[4])
 			}
 			if ws[3] != "notype" {
